@@ -25,10 +25,10 @@ Print Assumptions c13_monitor_accepts_model.
    model's book carries: with a positive cap, after consumeMessage and after the
    last Disconnected the peer holds at most max(cap, what it held before)
    addresses below the connected class — whichever entry an eviction picks *)
-Theorem c13_caps_book_per_peer : forall cap b p, 0 < cap ->
-  (forall addrs ttl, ucount p (a_ents (book_consumed cap b p addrs ttl)) <= Z.max cap (pcount p (a_ents b))) /\
-  (forall order, ucount p (a_ents (book_disconnected cap b p order)) <= Z.max cap (pcount p (a_ents b))).
-Proof. intros cap b p H. split; intros; [now apply consumed_bookcap|now apply disconnected_bookcap]. Qed.
+Theorem c13_caps_book_per_peer : forall cap maxu b p, 0 < cap ->
+  (forall addrs ttl, ucount p (a_ents (book_consumed cap maxu b p addrs ttl)) <= Z.max cap (pcount p (a_ents b))) /\
+  (forall order, ucount p (a_ents (book_disconnected cap maxu b p order)) <= Z.max cap (pcount p (a_ents b))).
+Proof. intros cap maxu b p H. split; intros; [now apply consumed_bookcap|now apply disconnected_bookcap]. Qed.
 Print Assumptions c13_caps_book_per_peer.
 
 (* the same for the race cases (real goroutines, judged on the final peerstore
@@ -104,18 +104,18 @@ Print Assumptions c13_symbolic_scheme_is_ideal.
    classes afterwards; the last disconnect adds at most
    recentlyConnectedPeerMaxAddrs to the recently-connected class *)
 Theorem c13_caps_addresses :
-  forall verify id_of c m cap b ttl,
+  forall verify id_of c m cap maxu b ttl,
     Z.of_nat (length (consume_addrs verify id_of c m)) <= connectedPeerMaxAddrs /\
     Z.of_nat (length (filter (Qp (c_peer c) is_hi)
-                             (a_ents (book_consumed cap b (c_peer c) (consume_addrs verify id_of c m) ttl))))
+                             (a_ents (book_consumed cap maxu b (c_peer c) (consume_addrs verify id_of c m) ttl))))
       <= connectedPeerMaxAddrs.
 Proof.
   intros. split; [apply consume_addrs_length|apply consumed_cap, consume_addrs_length].
 Qed.
 Print Assumptions c13_caps_addresses.
 
-Theorem c13_caps_after_last_disconnect : forall cap b p order,
-  Z.of_nat (length (filter (Qp p is_rc) (a_ents (book_disconnected cap b p order)))) <=
+Theorem c13_caps_after_last_disconnect : forall cap maxu b p order,
+  Z.of_nat (length (filter (Qp p is_rc) (a_ents (book_disconnected cap maxu b p order)))) <=
   Z.of_nat (length (filter (Qp p is_rc) (a_ents b))) + recentlyConnectedPeerMaxAddrs.
 Proof. exact disconnected_recent. Qed.
 Print Assumptions c13_caps_after_last_disconnect.
@@ -146,9 +146,9 @@ Print Assumptions c13_connected_ttl_only_while_connected.
 (* ... and fall back to a finite lifetime: right after the last Disconnected no
    entry of the peer has the connected TTL, and only entries that were above it
    (permanent) stay at or above it *)
-Theorem c13_fallback_to_finite_lifetime : forall cap b p order,
-  pall p (fun t => t <> ConnectedAddrTTL) (book_disconnected cap b p order) /\
-  (length (filter (Qp p (fun t => (ConnectedAddrTTL <=? t)%Z)) (a_ents (book_disconnected cap b p order))) <=
+Theorem c13_fallback_to_finite_lifetime : forall cap maxu b p order,
+  pall p (fun t => t <> ConnectedAddrTTL) (book_disconnected cap maxu b p order) /\
+  (length (filter (Qp p (fun t => (ConnectedAddrTTL <=? t)%Z)) (a_ents (book_disconnected cap maxu b p order))) <=
    length (filter (Qp p (fun t => (ConnectedAddrTTL <? t)%Z)) (a_ents b)))%nat.
 Proof. intros. split; [apply disconnected_noconn|apply disconnected_fallback]. Qed.
 Print Assumptions c13_fallback_to_finite_lifetime.
@@ -168,9 +168,9 @@ Theorem c13_wait_released : forall g ops, init_wf g = true ->
   (forall ch, In (ch, false) (s_chans s) -> In ch (map fst (s_tasks s))) /\
   (forall c ch, alist_get c (s_entries s) = Some ch -> ch <> 0 -> ~ In ch (map fst (s_tasks s)) ->
      In (ch, true) (s_chans s) /\ ~ In (ch, false) (s_chans s)) /\
-  (forall c ch, alist_get c (s_entries s) = Some ch -> ch <> 0 -> identify_wait s c = (s, ch)) /\
+  (forall c ch, alist_get c (s_entries s) = Some ch -> ch <> 0 -> identify_wait (g_timeout g) s c = (s, ch)) /\
   (forall c, alist_get c (s_entries s) = None -> zin c (s_closed s) = true ->
-     let '(s', ch) := identify_wait s c in
+     let '(s', ch) := identify_wait (g_timeout g) s c in
      In (ch, true) (s_chans s') /\ ~ In (ch, false) (s_chans s') /\ s_tasks s' = s_tasks s /\
      s_entries s' = s_entries s) /\
   (forall o x, In (x, true) (s_chans s) -> ~ In (x, false) (s_chans s) ->
@@ -183,6 +183,16 @@ Proof.
   intros o x. destruct (gstep g s o) as [s' mo] eqn:E. cbn [fst]. now apply (step_closed_stable g s o s' mo x E).
 Qed.
 Print Assumptions c13_wait_released.
+
+(* with identify.WithTimeout(0) every exchange fails before it begins: in no
+   reachable state is a wait channel open *)
+Theorem c13_zero_timeout_releases_at_once : forall g ops, init_wf g = true -> g_timeout g = 0 ->
+  forall ch, ~ In (ch, false) (s_chans (run g (init_sys g) ops)).
+Proof.
+  intros g ops Hw Ht ch Hi. destruct (run_inv g ops (init_sys g) (init_inv g Hw)) as [_ Hwt _].
+  apply Hwt in Hi. rewrite (run_notasks g ops Ht (init_sys g) eq_refl) in Hi. destruct Hi.
+Qed.
+Print Assumptions c13_zero_timeout_releases_at_once.
 
 (* ... and the steps that release are always enabled: whatever answer a running
    exchange gets — refusal, read error, any message — closes its channel, and the
@@ -218,7 +228,7 @@ Print Assumptions c13_constants_sane.
 (* two peers, one public connection to peer 1 (whose ID embeds its key).  A push
    carries a listen address (9), and a record sealed by peer 1 listing address 6
    and address 7 with the suffix /p2p/2. *)
-Definition ex_g : cfg := mkCfg 2 [1] 128 64 5000000000 [(1, mkConn 1 2 2 false)] [].
+Definition ex_g : cfg := mkCfg 2 [1] 128 64 1000000 5000000000 [(1, mkConn 1 2 2 false)] [].
 Definition ex_rec : prec := mkPR 1 1 [mkW 6 2 0; mkW 7 2 2].
 Definition ex_env (signer : N) : envelope := mkEnv 1 1 ex_rec (TSig signer (signed_msg 1 1 ex_rec) 0).
 Definition ex_chunk (signer : N) : chunk :=
@@ -294,4 +304,27 @@ Example ex_book_cap_enforced :
   let many := mkChunk false (mkMsg [] (map (fun a => mkW a 2 0) (zrange 100 70)) 0 0 KAbsent RAbsent) in
   let s1 := run ex_g (init_sys ex_g) [OPush 1 [many]] in
   zlen (d_addrs (dump_peer (s_ps s1) 1)) = 64.
+Proof. vm_compute. reflexivity. Qed.
+
+(* a book at its limit of unconnected addresses (here 1, taken by a seeded address
+   of peer 2): the last Disconnected finds no room to move peer 1's connected
+   address out of the connected class, and deletes it — it does not keep the
+   connected lifetime *)
+Example ex_full_book_drops_on_last_disconnect :
+  let g := mkCfg 2 [1] 128 64 1 5000000000 [(1, mkConn 1 2 2 false)] [(2, 40, AddressTTL)] in
+  let s1 := run g (init_sys g) [ONetAdd 1; OPush 1 [ex_chunk 1]] in
+  let s2 := run g s1 [ONetRemove 1; ODisconnected 1 [mkW 6 3 0]] in
+  d_addrs (dump_peer (s_ps s1) 1) = [(6, ConnectedAddrTTL)] /\ d_addrs (dump_peer (s_ps s2) 1) = [] /\
+  d_addrs (dump_peer (s_ps s2) 2) = [(40, AddressTTL)].
+Proof. vm_compute. repeat split. Qed.
+
+(* a zero identify timeout: Connected opens a channel that is closed at once, with a Failed event *)
+Example ex_zero_timeout :
+  let g := mkCfg 2 [1] 128 64 1000000 0 [(1, mkConn 1 2 2 false)] [] in
+  let '(s1, o1) := gstep g (run g (init_sys g) [ONetAdd 1]) (OConnected 1) in
+  s_chans s1 = [(1, true)] /\ s_tasks s1 = [] /\ o_events o1 = [(2, 1)].
+Proof. vm_compute. repeat split. Qed.
+Example monitor_rejects_open_wait_with_zero_timeout :
+  mon_step (mkCfg 2 [1] 128 64 1000000 0 [(1, mkConn 1 2 2 false)] []) (mkMon [1] [] [no_dump; no_dump])
+           (OConnected 1) (mkWO 0 [] [] [false] [no_dump; no_dump]) = [11].
 Proof. vm_compute. reflexivity. Qed.
